@@ -550,7 +550,7 @@ fn gen_errors(w: &mut impl Write, stats: &mut Stats, rng: &mut Rng, tier: &str, 
     // ---- every pair of flips within a 40-bit window
     writeln!(w, "CASE {cid}_pairs len={n}").unwrap();
     writeln!(w, "F {fhex}").unwrap();
-    let exhaustive_pairs = if thorough { n <= 600 } else { n <= 48 };
+    let exhaustive_pairs = if thorough { n <= 300 } else { n <= 48 };
     if exhaustive_pairs {
         for pos in 32..nbits {
             for d in 1..40usize {
@@ -603,7 +603,7 @@ fn gen_errors(w: &mut impl Write, stats: &mut Stats, rng: &mut Rng, tier: &str, 
             }
         }
     } else {
-        let k = if thorough { 40_000 } else if n <= 400 { 1500 } else { 700 };
+        let k = if thorough { 10_000 } else if n <= 400 { 1500 } else { 700 };
         for _ in 0..k {
             let len = 1 + rng.below(16) as u32;
             let pat = (1u64 << (len - 1)) | rng.below(1u64 << (len - 1));
